@@ -29,6 +29,8 @@ def run(ctx):
     b = exactness(ctx, g)
     vmins(ctx, g, b)
     bookkeeping(ctx, g)
+    min_hyperbolic(ctx, g)
+    good_list(ctx, g)
     filters(ctx, g)
     ctx.clauses.append("numbered consecutively from 1 (T4)")
     counter_rule(ctx, "T4-consecutive-numbering", M + "DSyms::new", "<generators::dsym_generators::DSyms as std::iter::Iterator>::next", "SimpleDSym::from_partial", g)
@@ -225,6 +227,7 @@ def bookkeeping(ctx, g):
     for l in cl:
         for dbb, d in ch.all_defs_origins(l):
             d = norm(d, g)
+            d = expand_single_defs(ch, d, g, keep=tuple(x for x in subterms(d) if x[0] == "local" and ch.debug.get(x[1]) == "k"))
             kl = [x for x in subterms(d) if x[0] == "local" and ch.debug.get(x[1]) == "k"]
             old = ("field", st, "curv")
             vmin = ("index", ("field", st, "vs"), ("field", st, "next"))
@@ -249,6 +252,114 @@ def bookkeeping(ctx, g):
                 det = "k is not (1 if orbit_is_chain[state.next], 2 otherwise): %s" % kd
     ctx.ob("T4-curvature-bookkeeping", ch.name, "curv' = curv - k*F/vmin + k*F/v", "ok" if okc else "violation",
            "raising orbit n from its minimal v to v replaces its term k*CURV_FAC/vmin by k*CURV_FAC/v (56 (k, vmin, v) triples), same k as in the base value" if okc else det)
+
+
+def good_list(ctx, g):
+    """the fixed list of good spherical orbifolds in is_good(): every entry is written in the canonical form the private orbifold_symbol
+    routine produces (cone degrees descending, optional '*', corner degrees descending, optional 'x') - otherwise it can never match -
+    and names a good orbifold of positive Euler characteristic (not a tear-drop / spindle and their mirrored versions)"""
+    from fractions import Fraction
+    import re
+    ctx.clauses.append("every entry of the good-orbifold list is a canonical symbol of a good spherical orbifold (T4 data table)")
+    name = M + "DSymBackTracking::is_good"
+    b = ctx.body(name)
+    ctx.scan([b])
+    lits = list(str_consts_in(b))
+    for (n, k), pb in ctx.facts.promoted.items():
+        if n == name:
+            lits += str_consts_in(pb if hasattr(pb, "live_blocks") else Body(pb, ctx.facts))
+    ctx.floor("entries of the good-orbifold list", len(lits), 20)
+    bad = []
+    for s in lits:
+        m = re.fullmatch(r"([2-9]*)(\*?)([2-9]*)(x?)", s)
+        if not m or (m.group(3) and not m.group(2)):
+            bad.append("%r is not of the form <cones>[*<corners>][x]" % s)
+            continue
+        cones, star, corners, cross = [int(c) for c in m.group(1)], bool(m.group(2)), [int(c) for c in m.group(3)], bool(m.group(4))
+        if cones != sorted(cones, reverse=True) or corners != sorted(corners, reverse=True):
+            bad.append("%r is not in the canonical (descending) order that orbifold_symbol() produces: it can never match" % s)
+            continue
+        chi = 2 - sum(1 - Fraction(1, c) for c in cones) - (1 if star else 0) - sum((1 - Fraction(1, c)) / 2 for c in corners) - (1 if cross else 0)
+        if chi <= 0:
+            bad.append("%r has Euler characteristic %s <= 0: not spherical" % (s, chi))
+        elif not star and not cross and (len(cones) == 1 or (len(cones) == 2 and cones[0] != cones[1])):
+            bad.append("%r is a bad orbifold (tear-drop / spindle)" % s)
+        elif star and not cones and not cross and (len(corners) == 1 or (len(corners) == 2 and corners[0] != corners[1])):
+            bad.append("%r is a bad orbifold (mirrored tear-drop / spindle)" % s)
+    if len(set(lits)) != len(lits):
+        bad.append("duplicate entries")
+    ctx.ob("T4-good-orbifold-list", name, "entries", "ok" if not bad else "violation",
+           "%d entries, all canonical symbols of good spherical orbifolds" % len(lits) if not bad else "; ".join(bad[:3]))
+
+
+def min_hyperbolic(ctx, g):
+    """is_minimally_hyperbolic: for EVERY orbit whose branching exceeds its minimum, lowering it by one (term k*CURV_FAC/v replaced by
+    k*CURV_FAC/(v-1)) must make the curvature non-negative; decided by evaluating the expression on all (k, v)"""
+    ctx.clauses.append("minimal hyperbolicity: every raised orbit is lowered by exactly one with its own k; `false` iff some lowered curvature is still negative (T3/T4)")
+    F_ = ctx.facts.consts.get(M + "CURV_FAC", {}).get("int")
+    b = ctx.body(M + "DSymBackTracking::is_minimally_hyperbolic")
+    ctx.scan([b])
+    me, vs, curv = (("param", i, b.debug.get(i, "")) for i in (1, 2, 3))
+    cl = [l for l, n in b.debug.items() if n == "c"]
+    okc = False
+    det = "lowered curvature `c` not found"
+    site = None
+    for l in cl:
+        for dbb, d in b.all_defs_origins(l):
+            d = norm(d, g)
+            d = expand_single_defs(b, d, g, keep=tuple(x for x in subterms(d) if x[0] == "local" and b.debug.get(x[1]) == "k"))
+            site = dbb
+            kl = [x for x in subterms(d) if x[0] == "local" and b.debug.get(x[1]) == "k"]
+            vi = [x for x in subterms(d) if (x[0] == "index" or is_call(x, "Index::index")) and contains(x, lambda y: y == vs)]
+            if not (kl and vi and contains(d, lambda y: y == curv)):
+                det = "the lowered curvature is not computed from curv, k and vs[i]: " + show(d, 1)[:90]
+                continue
+            i_t = vi[0][2] if vi[0][0] == "index" else vi[0][2][1]
+            for _ in range(3):
+                if i_t[0] == "local" and len(b.all_defs_origins(i_t[1])) == 1:
+                    i_t = norm(b.all_defs_origins(i_t[1])[0][1], g)
+            okc = True
+            for kv in (1, 2):
+                for v in range(2, 8):
+                    got = eval_term_env(d, {curv: -3000, kl[0]: kv, vi[0]: v})
+                    if got != -3000 - kv * F_ // v + kv * F_ // (v - 1):
+                        okc = False
+                        det = "for k = %d, v = %d the lowered curvature differs from curv by %s, not by -k*CURV_FAC/v + k*CURV_FAC/(v-1) = %d" % (
+                            kv, v, None if got is None else got + 3000, -kv * F_ // v + kv * F_ // (v - 1))
+            kd = {}
+            for kb, kdv in b.all_defs_origins(kl[0][1]):
+                pol = None
+                for a in b.facts_at(kb):
+                    a = atom_norm(a, g)
+                    if a[0] == "bool" and contains(a[1], lambda y: y[0] == "field" and y[2] == "orbit_is_chain") and contains(a[1], lambda y: y == i_t):
+                        pol = a[2]
+                kd[eval_int(norm(kdv, g))] = pol
+            if okc and kd != {1: True, 2: False}:
+                okc = False
+                det = "k is not (1 if orbit_is_chain[i], 2 otherwise) for the orbit being lowered: %s" % kd
+            # guard: only raised orbits, and all of them
+            fa = [atom_norm(a, g) for a in b.facts_at(dbb)]
+            vm = lambda t: (t[0] == "index" or is_call(t, "Index::index")) and contains(t, lambda y: y[0] == "field" and y[2] == "orbit_vmins") and contains(t, lambda y: y == i_t)
+            okg = any(a[0] == "rel" and a[1] == "Lt" and vm(a[2]) and a[3] in (vi[0], ("index", vs, i_t), ("call", "std::ops::Index::index", (vs, i_t))) for a in fa)
+            r = loop_range_of_payload(b, i_t, g)
+            okr = r is not None and r[0] == ("int", 0) and not r[2] and (is_call(r[1], "orbit_count") or contains(r[1], lambda y: y[0] == "field" and y[2] == "orbit_vmins"))
+            if okc and not (okg and okr):
+                okc = False
+                det = "the lowering test does not run over every orbit i in 0..orbit_count() with vs[i] > orbit_vmins[i] (guard: %s, range: %s)" % (okg, okr)
+    ctx.ob("T4-minimal-hyperbolicity", b.name, "c = curv - k*F/v + k*F/(v-1)", "ok" if okc else "violation",
+           "every raised orbit is lowered by one with its own k (12 (k, v) pairs)" if okc else det, b.span_of(site) if site is not None else None)
+    # returns: false under c < 0 (and under curv >= 0), true otherwise
+    if cl:
+        cterm = ("local", cl[0], "c")
+        okf = False
+        for bi, si, s in b.assigns():
+            if s["place"]["l"] == 0 and not s["place"]["p"] and norm(b.rv_origin(s["rv"]), g) == ("int", 0):
+                fa = [atom_norm(a, g) for a in b.facts_at(bi)]
+                if any(a[0] == "rel" and implies(a, ("rel", "Lt", a[2], ("int", 0))) and (a[2] == cterm or (a[2][0] == "local" and b.debug.get(a[2][1]) == "c") or
+                                                                                        contains(a[2], lambda y: y[0] == "local" and b.debug.get(y[1]) == "k")) for a in fa):
+                    okf = True
+        ctx.ob("T4-minimal-hyperbolicity", b.name, "false<-c < 0", "ok" if okf else "violation",
+               "`false` is returned when a lowered curvature is still negative" if okf else "no `return false` under c < 0: non-minimal hyperbolic assignments are accepted")
 
 
 def vmins(ctx, g, B):
